@@ -111,5 +111,19 @@ def random_tree(rng, n):
     return label_preorder(random_shape(rng, n))
 
 
+ADV_KINDS = ["always_equal", "never_equal", "falsy", "zero_len", "unhashable", "container", "ordering"]
+
+
+def sprinkle_adv(cases, every=6):
+    """every n-th case is run on a node class with user-defined special methods
+    (the properties quantify over any node class); kinds rotate"""
+    k = 0
+    for i, c in enumerate(cases):
+        if i % every == every - 1 and "adv" not in c:
+            c["adv"] = ADV_KINDS[k % len(ADV_KINDS)]
+            k += 1
+    return cases
+
+
 def rng_for(seed, salt):
     return random.Random("%s/%s" % (seed, salt))
